@@ -87,6 +87,11 @@ def install(seed, clock_origin=None):
     _state["installed"] = True
 
 
+def reseed_uuid(seed):
+    """Restart the blank-node id stream (so that two RDF exports are byte-identical)."""
+    _state["rng"] = random.Random("uuid4:%d" % seed)
+
+
 def uninstall():
     dateutil.parser.parse = _real_parse
     rdflib.term.uuid4 = _real_uuid4
